@@ -40,9 +40,17 @@ Definition to_obs (o : cobs) : obs :=
 
 Definition fuel : nat := 24.
 
+(* v_model: the generated parser is well-formed (hypothesis of the required-keys theorem) and the model reproduces the
+   observation.
+   v_class: guard_class, the guard of C06_accepted_only_if_all_keys_declared / C06_accept_sound (0 = inside).  A case
+   outside the guard counts as the listed finding of its class only when the faithful model reproduces what was
+   observed; a deviation that neither the model nor the property explains is class 9 (not listed: reported). *)
 Definition judge1 (c : case) : verdict :=
-  {| v_model := agree (run fuel (c_parser c) (c_cfg c)) (c_obs c);
-     v_class := guard_class (c_parser c) (c_cfg c);
-     v_spec := spec_ok (c_parser c) (c_cfg c) (to_obs (c_obs c)) |}.
+  let m := wf_parser (c_parser c) && agree (run fuel (c_parser c) (c_cfg c)) (c_obs c) in
+  let s := spec_ok (c_parser c) (c_cfg c) (to_obs (c_obs c)) in
+  let g := guard_class (c_parser c) (c_cfg c) in
+  {| v_model := m;
+     v_class := if negb (N.eqb g 0) && negb m && negb s then 9%N else g;
+     v_spec := s |}.
 
 Definition judge (cs : list case) := judge_all judge1 cs.
